@@ -52,16 +52,17 @@ def handOverP2sh : PlanLine := ⟨true, 0, "<<< P2SH script >>>"⟩
 def controlNode (control : Bytes) (j : Nat) : Bytes := (control.drop (33 + 32 * j)).take 32
 
 def merkleStep (control : Bytes) (j : Nat) : PlanLine := ⟨false, 33 + 32 * j, "Branch: " ++ toHex (controlNode control j)⟩
-def tweakCheck : PlanLine := ⟨false, 0, "CheckTapTweak"⟩
+/-- the final commitment step: the output key is the internal key `p` (control block bytes 1..32) tweaked by the Merkle root -/
+def tweakCheck (p : Bytes) : PlanLine := ⟨false, 1, "CheckTapTweak: " ++ toHex p⟩
 
 /-- the commitment steps still to do when `done` of the `m` Merkle steps have been made -/
-def commitmentPlan (control : Bytes) (m done : Nat) : List PlanLine :=
-  (List.range' done (m - done)).map (merkleStep control) ++ [tweakCheck]
+def commitmentPlan (control p : Bytes) (m done : Nat) : List PlanLine :=
+  (List.range' done (m - done)).map (merkleStep control) ++ [tweakCheck p]
 
 /-- what remains of the commitment phase of a session -/
 def commitFuture : Option Model.Tce → List PlanLine
   | none => []
-  | some t => commitmentPlan t.control t.pathLen t.i
+  | some t => commitmentPlan t.control t.p t.pathLen t.i
 
 /-- what follows the script that is being executed: the P2SH hand-over pending for it (BIP16: the
     serialized script is the item on top of the stack saved when the script was entered), then the
@@ -86,7 +87,7 @@ def idealListing (redeem : Bytes) (e0 : Model.IEnv) : List PlanLine := sessionPl
 def pending (e : Model.IEnv) : Option PlanLine :=
   if e.done then none
   else match e.tce with
-    | some t => some (if t.i < t.pathLen then merkleStep t.control t.i else tweakCheck)
+    | some t => some (if t.i < t.pathLen then merkleStep t.control t.i else tweakCheck t.p)
     | none =>
       if !e.pc.isEmpty then
         (decodeOne e.pc).map (fun r => ⟨false, e.see.script.length - e.pc.length, instrText r.1⟩)
